@@ -63,11 +63,13 @@ theorem connected_iff_bond (t : Topo) (h : WF t) (rsize : Nat) (o s : Topology.B
   | none =>
     constructor
     · intro hh
-      split at hh
-      · have := hinj _ _ (Option.some.inj hh)
-        subst this
-        exact absurd ho (fun ho => iin_iout_disjoint h hs ho)
-      · cases hh
+      exfalso
+      by_cases h2 : s.kind = 2
+      · rw [if_pos h2] at hh
+        have := hinj _ _ (Option.some.inj hh)
+        rw [this] at hs
+        exact iin_iout_disjoint h hs ho
+      · rw [if_neg h2] at hh; cases hh
     · intro hh; cases hh
 
 /-- `received(o) = ⋀ received(i)` over the links `i ↦ o`; with no link the line is undriven (0) -/
